@@ -9,6 +9,7 @@ import Driver.C07
 import Driver.C09
 import Driver.C14
 import Driver.C19
+import Driver.C16
 
 open Driver Relic.Model
 
@@ -19,6 +20,9 @@ structure Conf where
   extra : List (String × String) := []
   fp : Option C02.Env := none
   ep : Option C03.Env := none
+  fb : Option C16.FEnv := none
+  eb : Option C16.EEnv := none
+  ebCache : C16.Cache := []
 
 def parseCfg (toks : List String) : Conf :=
   toks.foldl (fun c t =>
@@ -38,7 +42,7 @@ def dispatch (c : Conf) (op : String) (args : List String) (got : String) : Opti
     | some e => C02.handle e op args got
     | none => none) <|> (match c.ep with
     | some e => C03.handle e c.w op args got
-    | none => none) <|> (C07.handle e01.cfg op args) <|> (C09.handle c.w c.size c.digs op args got) <|> (C14.handle op args) <|> (C15.handle c.w c.size op args got) <|> (C19.handle latch op args)
+    | none => none) <|> (C07.handle e01.cfg op args) <|> (C09.handle c.w c.size c.digs op args got) <|> (C14.handle op args) <|> (C15.handle c.w c.size op args got) <|> (C19.handle latch op args) <|> (C16.handle c.fb c.eb c.ebCache c.w op args got)
 
 def processLine (c : Conf) (line : String) : String :=
   match line.splitOn " => " with
@@ -85,6 +89,31 @@ partial def loop (h : IO.FS.Stream) (out : IO.FS.Stream) (c : Conf) : IO Unit :=
         out.putStrLn (if got == "err" then "ok ep_param-rejected" else "FAIL S model=[] spec=[parsable ep_param] got=[" ++ got ++ "]")
         loop h out { c with ep := none }
     | _ => out.putStrLn "skip"; loop h out c
+  else if line.startsWith "fb_param " then
+    -- binary field context: the irreducible polynomial as the running library reports it
+    match line.splitOn " => " with
+    | [_, got] =>
+      match C16.parseFEnv got with
+      | some e =>
+        let bad := C16.checkFParam e
+        out.putStrLn (if bad.isEmpty then "ok fb_param" else "FAIL S model=[] spec=[" ++ String.intercalate ";" bad ++ "] got=[" ++ got ++ "]")
+        loop h out { c with fb := some e, eb := none }
+      | none =>
+        out.putStrLn (if got == "err" then "ok fb_param-rejected" else "FAIL S model=[] spec=[parsable fb_param] got=[" ++ got ++ "]")
+        loop h out { c with fb := none, eb := none }
+    | _ => out.putStrLn "skip"; loop h out c
+  else if line.startsWith "eb_param " then
+    match line.splitOn " => " with
+    | [_, got] =>
+      match C16.parseEEnv got with
+      | some e =>
+        let bad := C16.checkEParam e
+        out.putStrLn (if bad.isEmpty then "ok eb_param" else "FAIL S model=[] spec=[" ++ String.intercalate ";" bad ++ "] got=[" ++ got ++ "]")
+        loop h out { c with eb := some e, ebCache := [], fb := some { F := e.c.F, K := e.fc.K, kv := e.kv } }
+      | none =>
+        out.putStrLn (if got == "err" then "ok eb_param-rejected" else "FAIL S model=[] spec=[parsable eb_param] got=[" ++ got ++ "]")
+        loop h out { c with eb := none }
+    | _ => out.putStrLn "skip"; loop h out c
   else if line.startsWith "fp_param " then
     -- the running library reports the active field; the derived constants are checked here
     match line.splitOn " => " with
@@ -98,6 +127,12 @@ partial def loop (h : IO.FS.Stream) (out : IO.FS.Stream) (c : Conf) : IO Unit :=
         out.putStrLn (if got == "err" then "ok fp_param-rejected" else "FAIL S model=[] spec=[parsable fp_param] got=[" ++ got ++ "]")
         loop h out { c with fp := none }
     | _ => out.putStrLn "skip"; loop h out c
+  else if line.startsWith "ebm " || line.startsWith "ebs " then
+    -- scalar multiplications of C16 share the doubling chains of their base points
+    let toks := (((line.splitOn " => ").headD "").splitOn " ").filter (· ≠ "")
+    let c := { c with ebCache := C16.updCache c.eb c.ebCache (toks.headD "") (toks.drop 1) }
+    out.putStrLn (processLine c line)
+    loop h out c
   else
     out.putStrLn (processLine c line)
     loop h out c
